@@ -27,6 +27,7 @@ import (
 	"verif/engine"
 	"verif/harness/c03"
 	"verif/harness/c12"
+	"verif/harness/c13"
 	"verif/harness/c17"
 	"verif/harness/hk"
 	"verif/harness/udpx"
@@ -284,6 +285,10 @@ func all(tier string) (sets []*engine.Scenario, bounds []int) {
 	}
 	for _, sc := range c12.Scenarios(tier) {
 		sc.Name = "listeners-" + sc.Name
+		addS(racesOnly(sc), b(2, 3))
+	}
+	for _, sc := range c13.RaceScenarios() {
+		sc.Name = "listen-close-" + sc.Name
 		addS(racesOnly(sc), b(2, 3))
 	}
 	for _, sc := range c03.TwoListenerScenarios() {
